@@ -57,147 +57,178 @@ def D1(ctx: Ctx) -> RuleResult:
             else:
                 r.fail('HplProperty.__attrs_post_init__:path', f'a construction path skips sanity_check(): [{guards_repr(o.guards)}]', pi.where)
 
-    def pol(fi: FunctionInfo, depth: int) -> bool:
-        return fi.kind == 'property' and default_inline(fi, depth)
-    pt = ctx.model.cls('PatternType', 'D1')
-    for M in pt.enum_members:
-        ev = Evaluator(ctx.model, inline=pol, assume={Attr(Attr(self_t, 'pattern'), 'pattern_type'): EnumMember('PatternType', M)})
-        outs = ev.run(sc, {'self': self_t})
-        want = D1_TABLE.get(M)
-        if want is None:
-            r.notes.append(f'new pattern type {M}: no binding-order row')
-            continue
-        live = [o for o in outs if o.kind != 'raise']
-        if len(live) != 1 or live[0].guards:
-            r.fail(f'sanity_check[{M}]', f'cannot fold the pattern dispatch for {M}: {[guards_repr(o.guards) + " " + o.kind for o in outs]}', sc.where)
-            continue
-        got = []
-        for c in live[0].trace:
-            if call_name(c) in _SHORT and call_recv(c) == self_t:
-                got.append(f'{_short(c)}({", ".join(_short(a) for a in c.args)})')
-        if got == want:
-            r.ok(f'{M}: {" ; ".join(got)}')
-        else:
-            r.fail(f'sanity_check[{M}]', f'binding order for {M} is {" ; ".join(got)}, expected {" ; ".join(want)}', sc.where, want, got)
+    _binding_order(ctx, r, pc, sc, self_t)
     _helpers(ctx, r, pc, self_t)
     return r
 
 
-def _helpers(ctx: Ctx, r: RuleResult, pc, self_t: Term):
+# expected order of events and, for each, the events whose aliases are in scope when it is checked
+_A, _B, _TR, _T = 'scope.activator', 'pattern.behaviour', 'pattern.trigger', 'scope.terminator'
+D1_ORDER = {
+    'ABSENCE': [(_A, ()), (_B, (_A,)), (_T, (_A,))],
+    'EXISTENCE': [(_A, ()), (_B, (_A,)), (_T, (_A,))],
+    'REQUIREMENT': [(_A, ()), (_B, (_A,)), (_TR, (_B, _A)), (_T, (_A,))],
+    'RESPONSE': [(_A, ()), (_TR, (_A,)), (_B, (_TR, _A)), (_T, (_A,))],
+    'PREVENTION': [(_A, ()), (_TR, (_A,)), (_B, (_TR, _A)), (_T, (_A,))],
+}
+_OPTIONAL = {_A, _T}
+
+
+def _binding_order(ctx: Ctx, r: RuleResult, pc, sc: FunctionInfo, self_t: Term):
+    """sanity_check with every helper of properties.py looked through, per pattern type: the ordered primitive checks
+    `for ref in E.external_references(): if ref not in AVAIL: raise` and `for a in E.aliases(): if a in AVAIL: raise`,
+    with AVAIL read back as the set of events whose aliases it holds.  Independent of how the helpers are cut."""
+    root = ctx.model.ast_root()
+
     def pol(fi: FunctionInfo, depth: int) -> bool:
-        # private helpers of HplProperty that the per-position checks delegate to are looked through; the two leaf
-        # checks (loops) and everything outside the class stay calls
-        return fi.cls is pc and fi.name.startswith('_') and fi.name not in ('_check_refs_defined', '_check_duplicates') and default_inline(fi, depth)
-    ev = Evaluator(ctx.model, inline=pol)
-    avail = Sym('available')
+        if default_inline(fi, depth):
+            return True
+        if depth > 6 or fi.module.name != 'hpl.ast.properties' or fi.name in ('but', 'cast'):
+            return False
+        is_ast = fi.cls is not None and root in fi.cls.mro()
+        if is_ast and not fi.name.startswith('_'):
+            return False
+        if any(isinstance(x, (ast.While, ast.With, ast.Yield, ast.YieldFrom, ast.Try)) for x in ast.walk(fi.node)):
+            return False
+        return sum(1 for x in ast.walk(fi.node) if isinstance(x, ast.stmt)) <= 40
 
     def slot_of(t: Term) -> Optional[str]:
         if isinstance(t, Attr) and isinstance(t.base, Attr) and t.base.base == self_t:
             return f'{t.base.name}.{t.name}'
         return None
 
-    # _check_activator
-    fi = pc.methods.get('_check_activator')
-    if fi is None:
-        raise AnalysisError('D1', '_check_activator not found')
-    outs = ev.run(fi, {'self': self_t})
-    ok_none = ok_some = False
-    for o in outs:
-        nts = [(none_test(t), p) for t, p in norm_guards(o.guards)]
-        is_none = None
-        for nt, p in nts:
-            if nt and slot_of(nt[0]) == 'scope.activator':
-                is_none = nt[1] if p else not nt[1]
-        if is_none is True:
-            ok_none = o.kind == 'return' and o.value == TupleT(())
-            if not ok_none:
-                r.fail('_check_activator:none', f'without an activator it returns {o.value!r}, expected ()', fi.where)
-        elif is_none is False:
-            refs = [c for c in o.trace if call_name(c) == '_check_refs_defined']
-            al = o.value
-            good_refs = len(refs) == 1 and slot_of(refs[0].args[0]) == 'scope.activator' and refs[0].args[1] == TupleT(())
-            good_ret = isinstance(al, Call) and call_name(al) == 'aliases' and slot_of(call_recv(al)) == 'scope.activator'
-            if not good_refs:
-                r.fail('_check_activator:refs', f'the activator must be checked against the empty alias tuple: {[str(c) for c in refs]}', fi.where)
-            if not good_ret:
-                r.fail('_check_activator:return', f'returns {al!r}, expected the aliases of the activator', fi.where)
-            ok_some = good_refs and good_ret
-    if ok_none and ok_some:
-        r.ok('_check_activator: refs vs (), returns activator aliases or ()')
-    elif not (ok_none or ok_some):
-        r.fail('_check_activator:shape', f'cannot interpret: {[str(o)[:80] for o in outs]}', fi.where)
-    # trigger / behaviour
-    for name, slot in (('_check_trigger', 'pattern.trigger'), ('_check_behaviour', 'pattern.behaviour')):
-        fi = pc.methods.get(name)
-        if fi is None:
-            raise AnalysisError('D1', f'{name} not found')
-        outs = [o for o in ev.run(fi, {'self': self_t, 'available': avail}) if o.kind != 'raise']
+    def avail_slots(t: Term) -> Optional[List[str]]:
+        """events whose aliases the term holds; None when it cannot be read"""
+        if isinstance(t, TupleT):
+            out: List[str] = []
+            for x in t.items:
+                if isinstance(x, Op) and x.op == '*' and len(x.args) == 1:
+                    sub = avail_slots(x.args[0])
+                    if sub is None:
+                        return None
+                    out += sub
+                else:
+                    return None
+            return out
+        if isinstance(t, Op) and t.op == '+':
+            out = []
+            for x in t.args:
+                sub = avail_slots(x)
+                if sub is None:
+                    return None
+                out += sub
+            return out
+        if isinstance(t, Call) and call_name(t) == 'aliases' and not t.args:
+            sl = slot_of(call_recv(t))
+            return [sl] if sl else None
+        if isinstance(t, Call) and isinstance(t.func, Ext) and t.func.name in ('tuple', 'list', 'set', 'frozenset') and len(t.args) == 1:
+            return avail_slots(t.args[0])
+        if isinstance(t, Ite):
+            nt = none_test(t.test)
+            a, b = avail_slots(t.a), avail_slots(t.b)
+            if a is None or b is None:
+                return None
+            if nt is not None and slot_of(nt[0]) in _OPTIONAL:
+                present, absent = (b, a) if nt[1] else (a, b)
+                # the optional event contributes only when present
+                if slot_of(nt[0]) in present and [x for x in present if x != slot_of(nt[0])] == absent:
+                    return present
+            return a if a == b else None
+        if isinstance(t, New) and len([v for k, v in t.fields if k not in ('metadata',)]) == 1:
+            return avail_slots([v for k, v in t.fields if k not in ('metadata',)][0])
+        return None
+    pt = ctx.model.cls('PatternType', 'D1')
+    for M in pt.enum_members:
+        want = D1_ORDER.get(M)
+        if want is None:
+            r.notes.append(f'new pattern type {M}: no binding-order row')
+            continue
+        ev = Evaluator(ctx.model, inline=pol, assume={Attr(Attr(self_t, 'pattern'), 'pattern_type'): EnumMember('PatternType', M)})
+        outs = [o for o in ev.run(sc, {'self': self_t}) if o.kind != 'raise']
+        key = f'sanity_check[{M}]'
+        if not outs:
+            r.fail(key, f'no path of sanity_check completes for {M}', sc.where)
+            continue
         for o in outs:
-            refs = [c for c in o.trace if call_name(c) == '_check_refs_defined']
-            dups = [c for c in o.trace if call_name(c) == '_check_duplicates']
-            good = True
-            if not (len(refs) == 1 and slot_of(refs[0].args[0]) == slot and refs[0].args[1] == avail):
-                r.fail(f'{name}:refs', f'references of {slot} are not checked against the available aliases: {[str(c) for c in refs]}', fi.where)
-                good = False
-            if not (len(dups) == 1 and isinstance(dups[0].args[0], Call) and call_name(dups[0].args[0]) == 'aliases' and slot_of(call_recv(dups[0].args[0])) == slot and dups[0].args[1] == avail):
-                r.fail(f'{name}:dups', f'aliases of {slot} are not checked for re-binding against the available aliases: {[str(c) for c in dups]}', fi.where)
-                good = False
-            v = o.value
-            parts = list(v.args) if isinstance(v, Op) and v.op == '+' else [v]
-            has_own = any(isinstance(p, Call) and call_name(p) == 'aliases' and slot_of(call_recv(p)) == slot for p in parts)
-            has_av = avail in parts
-            if not (o.kind == 'return' and has_own and has_av):
-                r.fail(f'{name}:return', f'returns {v!r}; the next event must see both the aliases of {slot} and the ones available so far', fi.where, 'aliases + available', repr(v))
-                good = False
-            if good:
-                r.ok(f'{name}: refs/dups vs available, returns own aliases + available')
-    # terminator
-    fi = pc.methods.get('_check_terminator')
-    if fi is None:
-        raise AnalysisError('D1', '_check_terminator not found')
-    outs = ev.run(fi, {'self': self_t, 'available': avail})
-    checked = False
-    for o in outs:
-        is_none = None
-        for t, p in norm_guards(o.guards):
-            nt = none_test(t)
-            if nt and slot_of(nt[0]) == 'scope.terminator':
-                is_none = nt[1] if p else not nt[1]
-        if is_none is False:
-            refs = [c for c in o.trace if call_name(c) == '_check_refs_defined']
-            dups = [c for c in o.trace if call_name(c) == '_check_duplicates']
-            g1 = len(refs) == 1 and slot_of(refs[0].args[0]) == 'scope.terminator' and refs[0].args[1] == avail
-            g2 = len(dups) == 1 and dups[0].args[1] == avail and isinstance(dups[0].args[0], Call) and call_name(dups[0].args[0]) == 'aliases' and slot_of(call_recv(dups[0].args[0])) == 'scope.terminator'
-            if g1 and g2:
-                checked = True
-            else:
-                r.fail('_check_terminator', f'terminator checks are incomplete: refs={[str(c) for c in refs]} dups={[str(c) for c in dups]}', fi.where)
-    (r.ok('_check_terminator: refs and re-binding vs available') if checked else r.fail('_check_terminator:shape', 'no path checks a present terminator', fi.where))
-    # the two leaf checks
-    fi = pc.methods.get('_check_refs_defined')
-    outs = ev.run(fi, {'self': self_t, 'available': avail, 'event': Sym('event')})
-    ok = False
-    for o in outs:
-        for e in o.effects:
-            if isinstance(e, Loop) and isinstance(e.iter, Call) and call_name(e.iter) == 'external_references' and call_recv(e.iter) == Sym('event'):
+            present = {_A: True, _T: True}
+            for g, pol_ in norm_guards(o.guards):
+                nt = none_test(g)
+                if nt is not None and slot_of(nt[0]) in _OPTIONAL:
+                    present[slot_of(nt[0])] = (not nt[1]) if pol_ else nt[1]
+            checks: List[Tuple[str, str, Optional[frozenset]]] = []
+            for e in o.effects:
+                if not isinstance(e, Loop) or not isinstance(e.iter, Call) or call_name(e.iter) not in ('external_references', 'aliases'):
+                    continue
+                sl = slot_of(call_recv(e.iter))
+                if sl is None:
+                    continue
+                each = Sym(f'each:{e.target}')
                 for rg, exc in e.raises:
+                    if 'HplSanityError' not in repr(exc):
+                        continue
                     for t, p in norm_guards(rg):
-                        if isinstance(t, Op) and ((t.op == 'not in' and p) or (t.op == 'in' and not p)) and t.args[1] == avail and 'HplSanityError' in repr(exc):
-                            ok = True
-                        if isinstance(t, Op) and ((t.op == 'in' and p) or (t.op == 'not in' and not p)) and t.args[1] == avail:
-                            r.fail('_check_refs_defined:polarity', 'raises when the reference IS available', fi.where)
-    (r.ok('_check_refs_defined: HplSanityError for every external reference not in available') if ok else r.fail('_check_refs_defined', f'not "for ref in event.external_references(): if ref not in available: raise HplSanityError": {[str(o)[:120] for o in outs]}', fi.where))
-    fi = pc.methods.get('_check_duplicates')
-    outs = ev.run(fi, {'self': self_t, 'available': avail, 'aliases': Sym('aliases')})
-    ok = False
-    for o in outs:
-        for e in o.effects:
-            if isinstance(e, Loop) and e.iter == Sym('aliases'):
-                for rg, exc in e.raises:
-                    for t, p in norm_guards(rg):
-                        if isinstance(t, Op) and ((t.op == 'in' and p) or (t.op == 'not in' and not p)) and t.args[1] == avail and 'HplSanityError' in repr(exc):
-                            ok = True
-    (r.ok('_check_duplicates: HplSanityError for every alias already available') if ok else r.fail('_check_duplicates', f'not "for alias in aliases: if alias in available: raise HplSanityError": {[str(o)[:120] for o in outs]}', fi.where))
+                        if isinstance(t, Op) and t.op in ('in', 'not in') and t.args[0] == each:
+                            is_in = (t.op == 'in') == p
+                            av = avail_slots(t.args[1])
+                            kind = 'refs' if call_name(e.iter) == 'external_references' else 'dups'
+                            if (kind == 'refs') == is_in:
+                                r.fail(key + f':{sl}:polarity', f'{kind} check of {sl} raises when the name is {"in" if is_in else "not in"} the bound aliases', sc.where)
+                            checks.append((kind, sl, frozenset(av) if av is not None else None))
+                if any(flow != 'end' for _, flow, _, _ in e.paths):
+                    r.fail(key + f':{sl}:early-exit', f'the scan over {call_name(e.iter)}() of {sl} can stop before the last element', sc.where)
+            order = [(sl, frozenset(x for x in av if present.get(x, True))) for sl, av in want if present.get(sl, True)]
+            got_refs = [(sl, av) for kind, sl, av in checks if kind == 'refs']
+            got_dups = [(sl, av) for kind, sl, av in checks if kind == 'dups']
+
+            def show(seq):
+                return ' ; '.join(f'{sl.split(".")[1]}({",".join(sorted(x.split(".")[1] for x in av)) if av is not None else "?"})' for sl, av in seq)
+            # optional events absent on this path may still show (their loops are guarded inside helpers): ignore them
+            got_refs_p = [(sl, frozenset(x for x in av if present.get(x, True)) if av is not None else None) for sl, av in got_refs if present.get(sl, True)]
+            got_dups_p = [(sl, frozenset(x for x in av if present.get(x, True)) if av is not None else None) for sl, av in got_dups if present.get(sl, True)]
+            ok = True
+            # the same event may be scanned once per presence scenario of the optional events (helpers looked through
+            # merge their paths): a scan whose scope lacks only optional events is the scenario without them
+            exp_of = dict(order)
+
+            def scenario_ok(sl, av):
+                e = exp_of.get(sl)
+                return e is not None and av is not None and av <= e and (e - av) <= _OPTIONAL
+
+            def collapse(seq):
+                out = []
+                for sl, av in seq:
+                    if out and out[-1][0] == sl:
+                        if av is not None and out[-1][1] is not None and len(av) > len(out[-1][1]) and scenario_ok(sl, out[-1][1]):
+                            out[-1] = (sl, av)
+                        elif scenario_ok(sl, av):
+                            continue
+                        else:
+                            out.append((sl, av))
+                    else:
+                        out.append((sl, av))
+                return out
+            got_refs_p = collapse(got_refs_p)
+            got_dups_p = [(sl, av) for sl, av in got_dups_p if not (scenario_ok(sl, av) and av != exp_of.get(sl))]
+            if got_refs_p != order:
+                ok = False
+                r.fail(key, f'binding order for {M}: references are checked as {show(got_refs_p)}, expected {show(order)} (event(names in scope))', sc.where, show(order), show(got_refs_p))
+            for sl, av in order:
+                if av and (sl, av) not in got_dups_p:
+                    ok = False
+                    r.fail(key + f':{sl}:dups', f'{M}: aliases of {sl} are not checked against the aliases already bound ({sorted(av)}); found {show([d for d in got_dups_p if d[0] == sl])}', sc.where)
+            for sl, av in got_dups_p:
+                exp = dict(order).get(sl)
+                if exp is not None and av is not None and av != exp and av:
+                    ok = False
+                    r.fail(key + f':{sl}:dups-scope', f'{M}: aliases of {sl} are compared with {sorted(av)}, expected {sorted(exp)}', sc.where)
+            if ok:
+                r.ok(f'{M} [{guards_repr(o.guards)[:40]}]: {show(got_refs_p)}')
+
+
+def _helpers(ctx: Ctx, r: RuleResult, pc, self_t: Term):
+    def pol(fi: FunctionInfo, depth: int) -> bool:
+        return fi.cls is pc and fi.name.startswith('_') and default_inline(fi, depth)
+    ev = Evaluator(ctx.model, inline=pol)
     # duplicate channels in a disjunction
     ed = ctx.model.cls('HplEventDisjunction', 'D1')
     pi = ed.resolve('__attrs_post_init__')
